@@ -294,6 +294,10 @@ def run_shape(shape, tier):
 
 # ---------------------------------------------------------------------------------------------
 
+from checks import kernel_conc as _kc
+
+
+@_kc.replay_both
 def replay(cand):
     """scenario replay on the real build (real kernel, real HDF5, SerialPool and MultiPool): every execution path
     must give the same numbers in input order; a file overwritten in other units is read in its new units"""
@@ -312,7 +316,12 @@ def replay(cand):
         rnd = np.random.default_rng(9)
         t = 56000 + np.sort(rnd.uniform(0, 80, 7))
         data = tj.RVData(t, (12 * np.sin(2 * np.pi * t / 17.0) + rnd.normal(0, 1, 7)) * u.km / u.s, np.full(7, 1.0) * u.km / u.s)
-        prior = tj.JokerPrior.default(P_min=2 * u.day, P_max=100 * u.day, sigma_K0=30 * u.km / u.s, sigma_v=50 * u.km / u.s)
+        import pymc as pm
+        import thejoker.units as xu
+        with pm.Model():
+            # non-zero prior means so that every scratch vector of the kernel (b = M mu, ...) is non-trivial
+            v0 = xu.with_unit(pm.Normal("v0", 4.0, 40.0), u.km / u.s)
+            prior = tj.JokerPrior.default(P_min=2 * u.day, P_max=100 * u.day, sigma_K0=30 * u.km / u.s, pars={"v0": v0})
         lib = prior.sample(size=23, rng=np.random.default_rng(4))
         joker = tj.TheJoker(prior, rng=np.random.default_rng(1))
         ref = np.asarray(joker.marginal_ln_likelihood(data, lib, in_memory=True))
@@ -331,11 +340,13 @@ def replay(cand):
                 got = np.asarray(joker.marginal_ln_likelihood(data, src, n_batches=nb))
                 if got.shape != ref.shape or not np.allclose(got, ref, rtol=1e-11, atol=0):
                     bad.append("n_batches=%r via %s differs from the in-memory values" % (nb, "file" if src is fn else "object"))
-        with schwimmbad.MultiPool(2) as pool:
-            jm = tj.TheJoker(prior, rng=np.random.default_rng(1), pool=pool)
-            got = np.asarray(jm.marginal_ln_likelihood(data, fn, n_batches=4))
-            if not np.allclose(got, ref, rtol=1e-11, atol=0):
-                bad.append("MultiPool(2), n_batches=4 differs from the serial in-memory values")
+        import thejoker.thejoker as _tjm
+        if type(_tjm.CJokerHelper).__name__ != "function":      # real worker processes need the picklable compiled helper
+            with schwimmbad.MultiPool(2) as pool:
+                jm = tj.TheJoker(prior, rng=np.random.default_rng(1), pool=pool)
+                got = np.asarray(jm.marginal_ln_likelihood(data, fn, n_batches=4))
+                if not np.allclose(got, ref, rtol=1e-11, atol=0):
+                    bad.append("MultiPool(2), n_batches=4 differs from the serial in-memory values")
         # index-array reads in a non-monotone order
         from thejoker.multiproc_helpers import marginal_ln_likelihood_helper
         idx = np.array([11, 3, 10, 0, 22, 5])
@@ -354,7 +365,8 @@ def replay(cand):
             bad.append("after the cache file was overwritten with a library whose P is in years, the file path returns values for stale units")
     except Exception as e:
         import traceback
-        return {"reproduced": False, "error": "replay scenario failed: %s" % traceback.format_exc()[-500:]}
+        if not bad:
+            return {"reproduced": False, "error": "replay scenario failed: %s" % traceback.format_exc()[-500:]}
     finally:
         shutil.rmtree(tmpd, ignore_errors=True)
     return {"reproduced": bool(bad), "detail": "; ".join(bad)[:900] or "all execution paths agree"}
